@@ -220,3 +220,132 @@ func sqlMutating(e Effect) bool {
 }
 
 func dcsWrite(e Effect) bool { return e.Kind == "DCS" && isWriteOp(e.Op) }
+
+// RetSite is one way a function can return: the Return instruction, or — when
+// the function has deferred calls and go/ssa spills results to a cell — the store
+// that sets the result.
+type RetSite struct {
+	At  ssa.Instruction
+	Val ssa.Value
+}
+
+func (c *Check) RetSites(fn *ssa.Function, idx int) []RetSite {
+	var out []RetSite
+	for _, r := range Returns(fn) {
+		if idx >= len(r.Results) {
+			continue
+		}
+		v := r.Results[idx]
+		if ld, ok := v.(*ssa.UnOp); ok && ld.Op.String() == "*" {
+			if al, ok := ld.X.(*ssa.Alloc); ok && al.Parent() == fn {
+				n := 0
+				for _, b := range fn.Blocks {
+					for _, in := range b.Instrs {
+						if st, ok := in.(*ssa.Store); ok && st.Addr == ssa.Value(al) {
+							out = append(out, RetSite{st, st.Val})
+							n++
+						}
+					}
+				}
+				if n > 0 {
+					continue
+				}
+			}
+		}
+		out = append(out, RetSite{r, v})
+	}
+	return out
+}
+
+// valKind classifies a returned value at a site (see retKind).
+func (c *Check) valKind(fa *FuncAnalysis, at ssa.Instruction, v ssa.Value) (string, *Term) {
+	p := c.p
+	t := p.T(v)
+	if t.Op == "const" {
+		return "const:" + t.Name, t
+	}
+	alts := t.Alts()
+	allNew := len(alts) > 0
+	for _, a := range alts {
+		call := ResultOf(a, -1)
+		if call == nil || !p.IsCall(call, "fmt.Errorf", "errors.New") {
+			allNew = false
+		}
+	}
+	if allNew {
+		return "nonnil", t
+	}
+	same := func(pos bool) LitPat {
+		return func(l Lit) bool { return l.T.Op == "isnil" && l.Pos == pos && l.T.Args[0].V == v }
+	}
+	if ok, _ := fa.Gated(at, same(false)); ok {
+		return "nonnil", t
+	}
+	if ok, _ := fa.Gated(at, same(true)); ok {
+		return "nil", t
+	}
+	if call := ResultOf(t, -1); call != nil {
+		return "call", call
+	}
+	return "unknown", t
+}
+
+// SuccessSites returns the sites at which result #idx may be the success value
+// ("nil" or "true"); definite-failure sites are skipped.
+func (c *Check) SuccessSites(fn *ssa.Function, idx int, success string) []RetSite {
+	fa := c.p.FA(fn)
+	var out []RetSite
+	for _, rs := range c.RetSites(fn, idx) {
+		if !fa.Reachable(rs.At) {
+			continue
+		}
+		kind, _ := c.valKind(fa, rs.At, rs.Val)
+		switch {
+		case kind == "const:"+success:
+			out = append(out, rs)
+		case strings.HasPrefix(kind, "const:"):
+			// other constant: failure
+		case kind == "nonnil" && success == "nil":
+		case kind == "nil" && success == "nil":
+			out = append(out, rs)
+		default:
+			out = append(out, rs) // call / unknown: may be success
+		}
+	}
+	return out
+}
+
+// Gate records the obligation "target is gated by any-of pats".
+func (c *Check) Gate(fa *FuncAnalysis, target ssa.Instruction, construct, desc string, pats ...LitPat) bool {
+	ok, path := fa.Gated(target, pats...)
+	return c.Req(ok, c.p.Name(fa.Fn), c.p.InstrPos(target), construct, desc, "ungated path: "+fa.PathString(path))
+}
+
+func sameValue(a, b *Term) bool { return a != nil && b != nil && a.V != nil && a.V == b.V }
+
+// derivesOnly: every alternative of t satisfies pred.
+func derivesOnly(t *Term, pred func(*Term) bool) bool {
+	alts := t.Alts()
+	if len(alts) == 0 {
+		return false
+	}
+	for _, a := range alts {
+		if !pred(a) {
+			return false
+		}
+	}
+	return true
+}
+
+// recvArg returns the value of the receiver (arg 0 for static method calls, the
+// interface value for invokes) and the remaining arguments.
+func recvArgs(ci ssa.CallInstruction) (ssa.Value, []ssa.Value) {
+	c := ci.Common()
+	if c.IsInvoke() {
+		return c.Value, c.Args
+	}
+	if len(c.Args) > 0 && c.Signature().Recv() != nil {
+		return c.Args[0], c.Args[1:]
+	}
+	return nil, c.Args
+}
